@@ -901,6 +901,12 @@ func c14Judge(r *fw.Rec, tag string, steps []hstep, obs []hobs, ref string) bool
 }
 
 func c14Short(r *fw.Rec, idx int) {
+	canary := c12Canary()
+	defer func() {
+		if c := c12Canary(); c != canary {
+			r.Violate(fw.Violation{Key: "shared-object-written/history", What: "an exported package-level object (predeclared type or shared constant) changed while the history and its observers ran", Expected: canary, Observed: c})
+		}
+	}()
 	rng := r.Ctx().Rand(fmt.Sprintf("short/%d", idx))
 	steps := genHistory(rng, 5+rng.Intn(6), false)
 	ref, _, pMsg := runHistory(steps, nil)
@@ -921,6 +927,12 @@ func c14Short(r *fw.Rec, idx int) {
 }
 
 func c14Long(r *fw.Rec, idx int) {
+	canary := c12Canary()
+	defer func() {
+		if c := c12Canary(); c != canary {
+			r.Violate(fw.Violation{Key: "shared-object-written/history", What: "an exported package-level object (predeclared type or shared constant) changed while the history and its observers ran", Expected: canary, Observed: c})
+		}
+	}()
 	rng := r.Ctx().Rand(fmt.Sprintf("long/%d", idx))
 	steps := genHistory(rng, 12+rng.Intn(29), idx%4 == 0)
 	ref, _, pMsg := runHistory(steps, nil)
@@ -1515,10 +1527,76 @@ func c14RetargetAfterPrint(r *fw.Rec) {
 	}
 }
 
+// c14SharedObjectsUntouched: queries on one value must not write to objects
+// shared by the whole process (the predeclared types, the shared constants).
+// A block address of a function in another address space is asked for its type
+// and printed; the exported singletons are compared before and after, and a
+// module that uses types.I8Ptr must print as it did before the queries.
+func c14SharedObjectsUntouched(r *fw.Rec) {
+	build := func() (*ir.Module, *constant.BlockAddress) {
+		m := ir.NewModule()
+		f := m.NewFunc("f", types.Void)
+		f.AddrSpace = 1
+		entry := f.NewBlock("entry")
+		target := f.NewBlock("target")
+		entry.NewBr(target)
+		target.NewRet(nil)
+		ba := constant.NewBlockAddress(f, target)
+		m.NewGlobalDef("slot", constant.NewNull(types.I8Ptr))
+		m.NewGlobalDef("taken", ba)
+		g := m.NewFunc("g", types.I8Ptr, ir.NewParam("p", types.I8Ptr))
+		g.NewBlock("").NewRet(g.Params[0])
+		return m, ba
+	}
+	other := func() string {
+		m := ir.NewModule()
+		m.NewGlobalDef("p", constant.NewNull(types.I8Ptr))
+		m.NewGlobalDef("q", constant.NewNull(types.NewPointer(types.I8)))
+		h := m.NewFunc("h", types.I1, ir.NewParam("x", types.I8Ptr), ir.NewParam("y", types.I64))
+		h.NewBlock("").NewRet(constant.True)
+		s, _ := printGuard(m)
+		return s
+	}
+	refOther := other()
+	for _, observer := range []string{"BlockAddress.Type", "BlockAddress.String", "Module.String", "Global.LLString"} {
+		r.Eval(1)
+		before := c12Canary()
+		m, ba := build()
+		pan, msg, _ := fw.Guard(func() {
+			switch observer {
+			case "BlockAddress.Type":
+				_ = ba.Type()
+			case "BlockAddress.String":
+				_ = ba.String()
+			case "Module.String":
+				_ = m.String()
+			default:
+				_ = m.Globals[1].LLString()
+			}
+		})
+		key := "shared-object-written/" + observer
+		if pan {
+			r.Inconclusive("observer panics on the block-address module: " + firstLine(msg))
+			continue
+		}
+		if after := c12Canary(); after != before {
+			r.Violate(fw.Violation{Key: key, What: observer + " on a block address of a function in address space 1 changed an exported package-level object (predeclared type or shared constant)", Expected: before, Observed: after})
+			continue
+		}
+		if got := other(); got != refOther {
+			r.Violate(fw.Violation{Key: key + "/other-module", What: "after " + observer + " on a block address in address space 1, an unrelated module that uses types.I8Ptr prints differently: " + firstDiffLines(refOther, got), Expected: refOther, Observed: got})
+			continue
+		}
+		r.Nontrivial(key)
+		r.Tally("witness", "holds:"+key)
+	}
+}
+
 func c14FailedPrint(r *fw.Rec) {
 	c14FailedPrintInNumbering(r)
 	c14QueryEditRewrite(r)
 	c14RetargetAfterPrint(r)
+	c14SharedObjectsUntouched(r)
 	build := func(complete bool) (*ir.Module, *ir.Block, *ir.InstMul) {
 		m := ir.NewModule()
 		m.NewGlobalDef("g", constant.NewInt(types.I32, 1))
